@@ -48,8 +48,8 @@ CHECKS = {
         "Exhaustive TLC check that along every assignment of execution paths each replica reports Exec(own state, decided block); "
         "all 108 distinct path rows are replayed on real replica networks over random block histories; TLC accepts a run only if "
         "state root, every transaction result and the validator-update set agree on all replicas at every height.",
-        LEDGER_NOTE + " Consensus-connection calls sequential per replica; concurrent CheckTx/EstimateGas/query/pruner "
-        "interleavings not driven yet.", "DESIGN.md 4 C01"),
+        LEDGER_NOTE + " Consensus-connection calls sequential per replica; CheckTx / EstimateGas / state queries run free in "
+        "goroutines during block execution (not during Commit).", "DESIGN.md 4 C01"),
     "C10": (
         "Scenario driver on real multiplexers with every ABCI call under recover(); recorded life cycle validated by TLC "
         "(TraceReplica.tla clauses C10); Replica.tla design run",
